@@ -179,7 +179,8 @@ def pop4 : List Val → M (Val × Val × Val × Val × List Val)
 
 def expNat (a b : Nat) (limit : Nat) : M Nat :=
   if a = 0 ∧ b = 0 then .error (.logic "0^0") else
-  if a ≤ 1 then .ok (a ^ b) else
+  if a = 0 then .ok 0 else
+  if a = 1 then .ok 1 else
   if b > 128 then .error (.logic "exp overflow") else
   let r := a ^ b
   if r < limit then .ok r else .error (.logic "exp overflow")
@@ -606,6 +607,14 @@ def execPrim (cx : Ctx) (op : String) (imms : List String) (w : World) (st : Lis
         | some v => pure (v :: st, w)
         | none => pure (.u (mix cx.oracleSalt op imms [] % 1000) :: st, w)
       | none => throw (.logic "itxn read without inner transaction")
+  -- source-level pseudo operation (never appears in TEAL): Suffix(A, B) = A[B:]
+  | "suffix" => bin (fun a b => do let x ← asB a; let s ← asU b; let r ← sliceB x s x.length; pure (.b r))
+  -- source-level dynamic variable access (abstract cells; no 256 bound)
+  | "vloads" => un (fun a => do let s ← asU a; pure (getSlot w.scratch s))
+  | "vstores" => do
+      let (a, b, r) ← pop2 st
+      let s ← asU a
+      pure (r, { w with scratch := setSlot w.scratch s b })
   | _ => throw (.unmodelled s!"opcode {op}")
 
 /-! ### Machine -/
